@@ -121,6 +121,9 @@ structure Cfg where
   timed : Bool
   inputs : List Bytes     -- content of every source (an unopenable file has no content)
   agg : Bool := false     -- C05: the consumer is RunAggregationLoop (`mr`/`me` instead of `cr`/`cd`)
+  /-- the class `processLineSync` must give a line – a function of the line's own source, number and bytes
+      (`C01.clsOf` of the configured extractor; default: the fixed configuration ignore `{1}`, extract `{0}`) -/
+  cls : Line → Cls := harnessCls
 
 structure PSt where
   lts : St Line
@@ -225,7 +228,7 @@ def evLabels (cfg : Cfg) (wg : List Nat) (ps : PSt) (e : Ev) : Option (List Labe
   | "lm" | "li" | "lu" =>
     match s.workers[j]? with
     | some (.busy (x :: _) _) =>
-      if x.src == i && x.num == e.a && clsOfKind e.kind == some (harnessCls x) then some [.wproc j] else none
+      if x.src == i && x.num == e.a && clsOfKind e.kind == some (cfg.cls x) then some [.wproc j] else none
     | _ => none
   | "wc" => (match s.workers[j]? with | some (.busy [] (_ :: _)) => some [] | _ => none)
   | "wd" =>
@@ -258,7 +261,7 @@ def pstep (cfg : Cfg) (wg : List Nat) (ps : PSt) (e : Ev) : Option PSt :=
   match evLabels cfg wg ps e with
   | none => none
   | some ls =>
-    match applyAll harnessCls cfg.R cfg.B cfg.K ps.lts ls with
+    match applyAll cfg.cls cfg.R cfg.B cfg.K ps.lts ls with
     | none => none
     | some s' =>
       let pend := match e.kind with
